@@ -81,7 +81,7 @@ def all_paths(ids, maxlen):
             yield list(p)
 
 
-ID_SETS = {"plain": ["s1", "s2", "s3"], "odd": ["s1.2", "c:5-9", "H#1#x"]}  # odd: valid GFA names with non-word characters
+ID_SETS = {"plain": ["s1", "s2", "s3"], "odd": ["s1.2", "c:5-9", "H#1#x"], "numeric": ["0", "1", "10"]}  # odd: valid GFA names with non-word characters
 
 
 def configs(tier):
@@ -260,11 +260,11 @@ def run_shard(spec, tier, scratch):
     sh, of = spec["shard"], spec["of"]
     gi = 0
     for name, n, max_links, maxlen in configs(tier):
-        for idset, variants in (("plain", ("plain", "overlap")), ("odd", ("lfirst",))):
+        for idset, variants in (("plain", ("plain", "overlap")), ("odd", ("lfirst",)), ("numeric", ("plain",))):
             ids = ID_SETS[idset][:n]
             for choice in graph_space(ids, max_links):
                 for variant in variants:
-                    if idset == "odd" and len(choice) > 2:
+                    if idset in ("odd", "numeric") and len(choice) > 2:
                         continue  # id/line-order variants only on the small link sets
                     if variant == "overlap" and (len(choice) == 0 or len(choice) > 2):
                         continue
